@@ -53,6 +53,8 @@ pub struct Sched {
     cv: Condvar,
     pub stop: Arc<AtomicBool>,
     pub cache_gates: AtomicBool,
+    /// maximize() has returned (or panicked): if no worker ever started, there is nothing to schedule
+    pub main_done: AtomicBool,
 }
 
 thread_local! { static IS_WORKER: std::cell::Cell<bool> = const { std::cell::Cell::new(false) }; }
@@ -67,6 +69,7 @@ impl Sched {
             cv: Condvar::new(),
             stop,
             cache_gates: AtomicBool::new(false),
+            main_done: AtomicBool::new(false),
         })
     }
     fn me(&self, s: &S) -> Option<usize> {
@@ -157,6 +160,11 @@ impl Sched {
                         *x = W::Parked;
                     }
                 }
+            }
+            if self.main_done.load(std::sync::atomic::Ordering::SeqCst) && s.w.iter().all(|x| matches!(x, W::NotStarted | W::Exited(_))) {
+                // maximize() is over and every worker that started has exited (e.g. a panic before the workers were spawned)
+                s.verdict = Verdict::Done;
+                return;
             }
             let busy = s.granted.is_some() || s.w.iter().any(|x| matches!(x, W::Running | W::NotStarted | W::Waking(_)));
             if busy {
